@@ -18,7 +18,7 @@ BOUNDS = {'LOCATE': 'every 16-bit row with a fixed column and every 16-bit colum
                      '1..80 in row 1, 12 or 24; every printable character 32..126 at (12,40) and (10,80); VIEW PRINT 5 TO 10 with writes at '
                      'the last window row and column 80; LOCATE to every column after a row filled to its last column; '
                      '1..165 characters printed from the bottom row of VIEW PRINT windows 3-10, 5-5, 1-24; five '
-                     'characters printed at every column of row 25', 'outside': 'control characters, DBCS, WIDTH 40, '
+                     'characters printed at every column of row 25; 1..4 lines printed from rows 1, 12, 22, 23, 24 (plain, after a visit to row 25, after WIDTH 40 under VIEW PRINT 3 TO 24); VIEW PRINT after a full row', 'outside': 'control characters, DBCS, WIDTH 40, '
           'graphics modes, longer print histories'}
 ASSUMPTIONS = ['z3 decides the formulas', 'symx models validated per path']
 
@@ -167,6 +167,46 @@ def body_row25(h):
     return [R, C, S1, S2, S3]
 
 
+def body_newlines(h):
+    """lines printed from a symbolic row: the cursor goes down to the bottom of the scroll area and stays
+    there (scrolling), row 25 is never entered or changed -- also after row 25 was visited with LOCATE,
+    and after a mode change made with a VIEW PRINT window that reached row 24"""
+    impl = _setup(h, [], [b'A%', b'N%', b'I%', b'R%', b'C%', b'S%', b'T%', b'U%'])
+    impl.execute(b'KEY OFF: CLS')
+    width = 80
+    if h.params.get('width40'):
+        impl.execute(b'VIEW PRINT 3 TO 24: WIDTH 40')
+        width = 40
+    marks = (32, 32)
+    if h.params.get('visit25'):
+        impl.execute(b'LOCATE 25,1: PRINT "st";')
+        marks = (115, 116)
+    a = h.choice('a', [1, 12, 22, 23, 24])
+    n = h.int('n', 1, 4)
+    session.poke_int(h, impl, b'A%', seq2(h, a))
+    session.poke_int(h, impl, b'N%', seq2(h, n))
+    impl.execute(b'LOCATE A%,1: FOR I%=1 TO N%: PRINT "x": NEXT: R%=CSRLIN: C%=POS(0): S%=SCREEN(25,1): T%=SCREEN(25,2): U%=SCREEN(24,1)')
+    R, C, S, T = [_geti(impl, x) for x in (b'R%', b'C%', b'S%', b'T%')]
+    h.require('no-error', impl.interpreter.error_num == 0, impl.interpreter.error_num)
+    h.require('cursor-goes-down-to-row-24-and-stays', s_and(R == ite(a + n <= 24, a + n, 24), C == 1), [R, C])
+    h.require('row-25-untouched', s_and(S == marks[0], T == marks[1]), [S, T])
+    return [R, C, S, T]
+
+
+def body_view_print_after_full_row(h):
+    """VIEW PRINT moves the cursor to the top of the window and cancels a pending wrap"""
+    top, bottom = h.choice('w', [(3, 10), (1, 24), (5, 5)])
+    impl = _setup(h, [], [b'N%', b'R%', b'C%', b'S%', b'T%'])
+    impl.execute(b'KEY OFF: CLS')
+    n = h.choice('n', [79, 80])
+    impl.execute(b'LOCATE 12,1: PRINT STRING$(%d,"A");: VIEW PRINT %d TO %d: PRINT "xy";: R%%=CSRLIN: C%%=POS(0): S%%=SCREEN(%d,1): T%%=SCREEN(%d,2)'
+                 % (n, top, bottom, top, top))
+    R, C, S, T = [_geti(impl, x) for x in (b'R%', b'C%', b'S%', b'T%')]
+    h.require('no-error', impl.interpreter.error_num == 0, impl.interpreter.error_num)
+    h.require('text-starts-at-the-window-top-left', s_and(S == 120, T == 121, R == top, C == 3), [R, C, S, T])
+    return [R, C, S, T]
+
+
 def cases(tier):
     cs = [Case('locate-row', body_locate, params={'which': 'row'}, max_fanout=200),
           Case('locate-col', body_locate, params={'which': 'col'}, max_fanout=200)]
@@ -183,6 +223,10 @@ def cases(tier):
     cs.append(Case('view-print-scroll', body_view_print, max_fanout=400))
     cs.append(Case('locate-after-full-row', body_overflow_locate, max_fanout=400, timeout_s=1500))
     cs.append(Case('row-25', body_row25, max_fanout=400, timeout_s=1500))
+    cs.append(Case('view-print-after-full-row', body_view_print_after_full_row, max_fanout=100))
+    for name, p in (('plain', {}), ('after-visiting-row-25', {'visit25': True}),
+                    ('after-width-40-with-window-to-24', {'width40': True, 'visit25': True})):
+        cs.append(Case('newlines-' + name, body_newlines, params=p, max_fanout=100, timeout_s=900))
     windows = [(3, 10), (5, 5), (1, 24)] + ([(2, 23), (24, 24), (1, 1)] if tier == 'thorough' else [])
     for w in windows:
         cs.append(Case('window-fill-%d-%d' % w, body_window_fill,
